@@ -66,6 +66,19 @@ def parseRiff (d : Bytes) (offset : Nat) (o : Order) : R (List Chunk) := do
   if mv ≠ MV93 then .error .type else
   walk d o (offset + 12)
 
+/-- iterations of the walk loop inside parse_riff (0 when the header checks raise before the loop) -/
+def parseRiffSteps (d : Bytes) (offset : Nat) (o : Order) : Nat :=
+  match parseChunkId d offset o with
+  | .error _ => 0
+  | .ok ff =>
+    if ff ≠ RIFX then 0 else
+    match getS o 4 d (offset + 4) with
+    | .error _ => 0
+    | .ok _ =>
+      match parseChunkId d (offset + 8) o with
+      | .error _ => 0
+      | .ok mv => if mv ≠ MV93 then 0 else walkSteps d o (offset + 12)
+
 /-- RiffData.get_by_offset (offset may be any integer: it is `entry.offset - prefix`) -/
 def getByOffsetAux : List Chunk → Int → Int → R Chunk
   | [], _, _ => .error .index
